@@ -9,8 +9,11 @@ import (
 	"google.golang.org/protobuf/types/known/timestamppb"
 
 	"github.com/prometheus/alertmanager/alert"
+	"github.com/prometheus/alertmanager/eventrecorder"
+	"github.com/prometheus/alertmanager/featurecontrol"
 	"github.com/prometheus/alertmanager/nflog"
 	"github.com/prometheus/alertmanager/nflog/nflogpb"
+	"github.com/prometheus/common/promslog"
 )
 
 type hRS04 bool
@@ -349,4 +352,64 @@ func VerifC04_History() {
 		}
 		vfAdvance(vfSeconds("gap", 1, 5*3600))
 	}
+}
+
+type hSlow04 struct {
+	takes time.Duration
+	calls int
+}
+
+// Notify delivers successfully after `takes`, whether or not the flush's context has
+// expired in the meantime (a receiver that answers late).
+func (n *hSlow04) Notify(ctx context.Context, as ...*alert.Alert) (bool, error) {
+	n.calls++
+	time.Sleep(n.takes)
+	return false, nil
+}
+
+// VerifC04_SlowDelivery: a delivery that succeeds, possibly only after the flush's
+// deadline has passed (the receiver answered late, or the group was cancelled by a
+// reload while the request was in flight). Whatever the timing, a notification the
+// receiver accepted is recorded, so the next flush of the unchanged group stays silent
+// instead of notifying again long before repeat_interval.
+//
+//vf:quick unwind=16 decisions=300 goroutines=6 preempt=0 paths=300000
+//vf:thorough unwind=16 decisions=400 goroutines=6 preempt=1 paths=3000000
+//vf:expect reach=on-time reach=late
+func VerifC04_SlowDelivery() {
+	l, err := nflog.New(nflog.Options{Retention: 100 * time.Hour, Metrics: prometheus.NewRegistry()})
+	if err != nil {
+		panic(err)
+	}
+	n := &hSlow04{takes: vfSeconds("deliveryTakes", 0, 120)}
+	m := NewMetrics(prometheus.NewRegistry(), featurecontrol.NoopFlags{})
+	stage := createReceiverStage("r", []Integration{NewIntegration(n, hRS04(true), "webhook", 0, "r")},
+		func() time.Duration { return 0 }, l, m, eventrecorder.Recorder{})
+	t0 := vfNow()
+	a := hAlert04("A", 1000*time.Hour, t0)
+	deadline := time.Minute
+	flush := func() error {
+		ctx, cancel := context.WithTimeout(context.Background(), deadline)
+		defer cancel()
+		ctx = WithGroupKey(ctx, "gk")
+		ctx = WithReceiverName(ctx, "r")
+		ctx = WithRepeatInterval(ctx, 4*time.Hour)
+		ctx = WithNow(ctx, vfNow())
+		_, _, err := stage.Exec(ctx, promslog.NewNopLogger(), a)
+		return err
+	}
+	vfAssume(n.takes != deadline)
+	flush()
+	vfAssert("delivered-once", n.calls == 1)
+	if n.takes < deadline {
+		vfReach("on-time")
+	} else {
+		vfReach("late")
+	}
+	// next flush one group interval after the first tick
+	if d := t0.Add(5 * time.Minute).Sub(vfNow()); d > 0 {
+		vfAdvance(d)
+	}
+	vfAssert("second-flush-ok", flush() == nil)
+	vfAssert("accepted-notification-is-not-repeated-at-the-next-flush", n.calls == 1)
 }
